@@ -52,7 +52,7 @@ func (m *RWMutex) RLock() {
 	zzsched.BlockCurrent(func() bool { return !m.w })
 	m.readers++
 }
-func (m *RWMutex) RUnlock() { m.readers--; zzsched.WakeAll(); zzsched.P(-1) }
+func (m *RWMutex) RUnlock()        { m.readers--; zzsched.WakeAll(); zzsched.P(-1) }
 func (m *RWMutex) RLocker() Locker { return rlocker{m} }
 
 type rlocker struct{ m *RWMutex }
